@@ -7,7 +7,9 @@ import Zed.Generated.C20
 
   Types interned in one `zed.Context` are equal as pointers iff they are structurally equal,
   so pointer equality in the Go code is structural equality here.  Enum and error types are
-  outside this model (the driver rejects them).  Names are byte strings.
+  opaque leaves for the shaper (it never looks inside their values): a value of such a type is
+  carried as `Val.prim idEnum bytes` / `Val.prim idError bytes` with its whole body as bytes.
+  Names are byte strings.
 -/
 namespace Zed.Fuse
 
@@ -23,6 +25,8 @@ inductive Ty where
   | map (k v : Ty)
   | union (ts : Tys)
   | named (n : Name) (t : Ty)
+  | enum (syms : List Name)
+  | error (t : Ty)
 inductive Fields where
   | nil
   | cons (n : Name) (t : Ty) (rest : Fields)
@@ -38,6 +42,9 @@ instance : Inhabited Ty := ⟨.prim 29⟩
 /-- `zed.IDNull` (regenerated from type.go) -/
 def idNull : Nat := Generated.C20.idNull
 def tyNull : Ty := .prim idNull
+/-- synthetic leaf ids for values of enum and error types (carried as opaque bytes) -/
+def idEnum : Nat := 1000
+def idError : Nat := 1001
 
 namespace Fields
 def toList : Fields → List (Name × Ty)
@@ -97,13 +104,18 @@ def kind (t : Ty) : Nat :=
   | .set _ => 3
   | .map _ _ => 4
   | .union _ => 5
+  | .enum _ => 6
+  | .error _ => 7
   | .named _ _ => 0
 
 def isRecord (t : Ty) : Bool := match t.under with | .record _ => true | _ => false
 def isUnion (t : Ty) : Bool := match t.under with | .union _ => true | _ => false
 def isMap (t : Ty) : Bool := match t.under with | .map _ _ => true | _ => false
-/-- `zed.IsPrimitiveType` (no enum/error types in this model). -/
-def isPrim (t : Ty) : Bool := match t.under with | .prim _ => true | _ => false
+/-- `zed.IsPrimitiveType` = not a container: primitives, enums and errors. -/
+def isPrim (t : Ty) : Bool :=
+  match t.under with | .prim _ => true | .enum _ => true | .error _ => true | _ => false
+def isError (t : Ty) : Bool := match t.under with | .error _ => true | _ => false
+def isEnum (t : Ty) : Bool := match t.under with | .enum _ => true | _ => false
 /-- `zed.InnerType` -/
 def inner? (t : Ty) : Option Ty :=
   match t.under with
@@ -144,6 +156,10 @@ def cmpFieldNames : Fields → Fields → Ordering
   | .cons n _ r, .cons n' _ r' => match cmpName n n' with | .eq => cmpFieldNames r r' | o => o
   | _, _ => .eq
 
+def cmpNames : List Name → List Name → Ordering
+  | a :: as, b :: bs => match cmpName a b with | .eq => cmpNames as bs | o => o
+  | _, _ => .eq
+
 mutual
 /-- The kind-specific part of `CompareTypes` (both sides already of the same kind). -/
 def cmpDeep : Ty → Ty → Ordering
@@ -172,6 +188,13 @@ def cmpDeep : Ty → Ty → Ordering
       | .eq => cmpTys ts us
       | o => o
     | _ => .eq
+  | .enum ss, b =>
+    match b.under with
+    | .enum ss' => match cmpNat ss.length ss'.length with
+      | .eq => cmpNames ss ss'
+      | o => o
+    | _ => .eq
+  | .error t, b => match b.under with | .error u => cmpHead t u (cmpDeep t u) | _ => .eq
 def cmpFieldTypes : Fields → Fields → Ordering
   | .cons _ t r, .cons _ t' r' => match cmpHead t t' (cmpDeep t t') with | .eq => cmpFieldTypes r r' | o => o
   | _, _ => .eq
@@ -276,7 +299,8 @@ mutual
 /-- `v` is a valid value of type `t` (what `Value.Validate` checks, structurally). -/
 def hasType : Val → Ty → Bool
   | .null, _ => true
-  | .prim id _, t => t.under == .prim id && id != idNull
+  | .prim id _, t =>
+    (t.under == .prim id && id != idNull) || (id == idEnum && t.isEnum) || (id == idError && t.isError)
   | .recd vs, t => t.isRecord && hasTypeRec vs t.fields
   | .list vs, t => match t.inner? with | some i => hasTypeAll vs i | none => false
   | .map vs, t => match t.under with | .map k v => hasTypeMap vs k v | _ => false
